@@ -678,6 +678,14 @@ class SimLoop(base_events.BaseEventLoop):
     def create_future(self):
         return DetFuture(loop=self)
 
+    def run_in_executor(self, executor, func, *args):
+        # the loop's default executor is a pool of simulated threads, like every other pool
+        if executor is None:
+            executor = getattr(self, '_sim_default_executor', None)
+            if executor is None:
+                executor = self._sim_default_executor = SimExecutor(self.s, 8, 'asyncio')
+        return super().run_in_executor(executor, func, *args)
+
     def _process_events(self, ev):
         pass
 
